@@ -370,8 +370,19 @@ func (maddr Multiaddr) MarshalJSON() ([]byte, error) {
 
 // UnmarshalJSON parses a cluster Multiaddr from the JSON representation.
 func (maddr *Multiaddr) UnmarshalJSON(data []byte) error {
-	maddr.Multiaddr, _ = multiaddr.NewMultiaddr("/ip4/127.0.0.1") // null multiaddresses not allowed
-	return maddr.Multiaddr.UnmarshalJSON(data)
+	// Do not delegate to the wrapped multiaddress: its UnmarshalJSON
+	// panics when the string is not a valid multiaddress.
+	var str string
+	err := json.Unmarshal(data, &str)
+	if err != nil {
+		return err
+	}
+	m, err := multiaddr.NewMultiaddr(str) // null multiaddresses not allowed
+	if err != nil {
+		return err
+	}
+	maddr.Multiaddr = m
+	return nil
 }
 
 // MarshalBinary returs the bytes of the wrapped multiaddress.
